@@ -561,3 +561,17 @@ Proof.
   apply andb_true_iff in Heq as [Heq He]. apply andb_true_iff in Heq as [Heq Hk]. apply andb_true_iff in Heq as [Hf Hfn].
   apply String.eqb_eq in Hf, Hfn, Hk, He. subst. exists c. exact Hin'.
 Qed.
+
+(* ------------------------------------------------------------------------------------------ *)
+(** * 8. Decoded size *)
+Lemma gzip_amplification_witness :
+  let body := 102400%Z in let decoded := 104857600%Z in      (* 100 KiB on the wire, 100 MiB decoded *)
+  (0 <= decoded <= gzip_max_ratio * body)%Z /\ (alloc_bound_bytes body < bytes_read "gzip" body decoded)%Z.
+Proof. vm_compute. split; [split; discriminate|reflexivity]. Qed.
+
+Lemma identity_encoding_reads_the_body : forall body decoded, (0 <= body)%Z -> (bytes_read "" body decoded <= alloc_bound_bytes body)%Z.
+Proof.
+  intros body decoded H. unfold bytes_read, alloc_bound_bytes, alloc_bound_kb. cbn [String.eqb].
+  pose proof (Z.mul_div_le body 1024 ltac:(lia)). pose proof (Z.mod_pos_bound body 1024 ltac:(lia)).
+  pose proof (Z.div_mod body 1024 ltac:(lia)). lia.
+Qed.
